@@ -12,6 +12,9 @@ MEMO-DEP   a None-guarded memo ``if self._m is None: self._m = E`` is only sound
            package itself mutates that collection in place through the accessor (``zone.hot_streams.add(...)``), no method of
            the class ever sees the change: the memo goes stale.
 
+MEMO-COH   (module memocoh) an instance-level memo is dropped by every public method - of the class or of a view class writing through the
+           owner - that writes a field the memo was computed from.
+
 RECOMPUTE  targeting never consults the record registry to decide whether to run: ``if key in zone.targets: return`` leaves
            every record of the zone stale once its streams change (the registry is an output, not a cache).
 """
@@ -346,4 +349,8 @@ def check_all(ctx: CheckContext, p: Program, r: Resolver, funcs: List[FuncInfo])
     for f in funcs:
         if f.cls is not None and f.cls not in classes:
             classes.append(f.cls)
-    return check_memo_keys(ctx, p, r, funcs) + check_snapshot_guards(ctx, p, r, classes) + check_memo_dependencies(ctx, p, r, classes) + check_no_registry_skip(ctx, p, r, funcs)
+    from .memocoh import check_memo_coherence
+    # view classes nested in an anchored class are reached through their owner
+    classes = [c for c in classes if not any(c in (getattr(o, "inner", {}) or {}).values() for o in classes)]
+    return check_memo_keys(ctx, p, r, funcs) + check_snapshot_guards(ctx, p, r, classes) + check_memo_dependencies(ctx, p, r, classes) \
+        + check_no_registry_skip(ctx, p, r, funcs) + check_memo_coherence(ctx, p, r, classes)
